@@ -254,6 +254,9 @@ def run_history(ctx, seed):
             for c in net.conns:
                 if c.is_closed or c.is_defunct or c.sim_creator not in POOL_CREATORS:
                     continue
+                p = owner_of(c)
+                if p is None or p.is_shutdown or not (getattr(p, '_connection', None) is c or c in (getattr(p, '_connections', None) or []) or c in getattr(p, '_trash', ())):
+                    continue        # accounting of a connection whose pool is gone (or that the pool has dropped: reported by the closure census) is moot
                 if any(cid == c.sim_id for (cid, sid) in outstanding):
                     continue
                 conserved += 1
@@ -303,6 +306,12 @@ def run_history(ctx, seed):
                     viol.append(('closed-replaced-connection-returned-drops-live-connection', where + ': conn %d had already been replaced (it was in _trash) when it was '
                                  'returned closed/defunct (%s); return_connection took that for a failure of the pool\'s connection and dropped the live one without '
                                  'closing it' % (x.sim_id, 'stale return by _execute_after_prepare' if x.sim_id in stale_x else 'the trashed connection failed')))
+                elif p is not None and not p.is_shutdown and c.sim_creator == 'pool-init' and session.is_shutdown and pw.pool_finished_after_session_shutdown(p):
+                    viol.append(('pool-installed-after-session-shutdown-never-shut-down', where + ': Session.add_or_renew_pool finished building this pool after '
+                                 'Session.shutdown() had swept the pools; it is registered (or dropped) without ever being shut down'))
+                elif pname == 'HostConnectionPool' and c.sim_creator == 'pool-init' and '_connections' not in p.__dict__:
+                    viol.append(('pool-constructor-failure-leaks-opened-connections', where + ': HostConnectionPool.__init__ opened it and then failed on a later core '
+                                 'connection; the constructor raised and nobody owns or closes the connection'))
                 else:
                     viol.append(('connection-left-open-after-shutdown', where + ' (installed=%s, trashed=%s, pool shutdown=%s, installed after shutdown() was called=%s)' % (
                         installed, c.sim_id in pw.trashed, getattr(p, 'is_shutdown', None), late)))
@@ -323,6 +332,7 @@ def run(ctx):
     shim.import_cluster()
     from vlib.run import Inconclusive
     from sim.world import WorldLimit
+    import gc
     ctx.rule = ("a case is one seeded history (protocol, pool configuration, id-space size, 4-30 pool events, conviction policy, schedule); distinct "
                 "by the event-order signature of the world trace; non-trivial = at least 3 requests")
     ctx.assume("a connection refused by the node during a pool's replacement is refused at most 3 times in a row (the pools retry immediately and "
@@ -336,6 +346,10 @@ def run(ctx):
             ctx.note("stopped by time budget after %d histories" % i)
             break
         seed = base + i
+        # garbage of earlier histories (Session.__del__ -> shutdown() ...) must not run inside this history's world at a moment chosen by
+        # the collector: collect now, keep the cyclic collector off while the history runs (reproducibility from the seed)
+        gc.collect()
+        gc.disable()
         try:
             viol, harness, sig, info, hist = run_history(ctx, seed)
         except WorldLimit:
@@ -343,6 +357,8 @@ def run(ctx):
             continue
         except Exception as e:      # noqa
             raise Inconclusive("history seed %d failed in the harness: %s: %s" % (seed, type(e).__name__, e))
+        finally:
+            gc.enable()
         if harness:
             raise Inconclusive("harness error in history seed %d: %r" % (seed, harness[:2]))
         ctx.case(repr(sig), nontrivial=info['requests'] >= 3)
